@@ -30,3 +30,7 @@ PROFILES.update({
     'C13': P(6000, 60, 300000, 1500),
     'C15': P(240, 120, 40000, 1800, custom=lambda prop, tier, seed: _sc.run_race_check(prop, tier, seed)),
 })
+
+PROFILES.update({
+    'C16': dict(quick=dict(runs=60, budget_s=120, variants=4), thorough=dict(runs=3000, budget_s=1800, variants=40), custom=lambda prop, tier, seed: _sc.run_gen_check(prop, tier, seed)),
+})
